@@ -378,7 +378,7 @@ def mkctx(v, w, base=None):
 # running the real implementation, judging, attributing
 # ----------------------------------------------------------------------------------------------
 _RIB = {}
-RENDERS = [0]
+RENDERS = [0, 0]  # compared synthesize() calls, translate() executions they caused (includes recurse)
 
 
 def ribosome(strict):
@@ -543,8 +543,11 @@ def judge(case):
     viol = []
     desc = "template %r ctx %r: " % (tstr, ctx)
     RENDERS[0] += 1
+    rib = ribosome(case["phase"] == "strict")
+    n0 = rib._translations_count
     if case["phase"] == "strict":
         got = observe(tstr, ctx, strict=True)
+        RENDERS[1] += rib._translations_count - n0
         needed = sorted(set(ref.needed_unbound))
         if got[0] == "raise":
             if got[1] != "ValueError":
@@ -563,6 +566,7 @@ def judge(case):
             viol.append(("strict-output-differs", desc + "strict output %r, expected %r" % (got[1], alts[0])))
         return "ok", viol, ("strict", "ok", len(got[2]) > 0)
     got = observe(tstr, ctx)
+    RENDERS[1] += rib._translations_count - n0
     meta = case.get("meta")
     if got[0] == "raise" or got[1] not in alts:
         for k, w in attribute(tpl, ctx, meta):
@@ -651,7 +655,7 @@ def _work(arg):
     viols = {}
     outcomes = set()
     samples = []
-    RENDERS[0] = 0
+    RENDERS[0] = RENDERS[1] = 0
     for it in items:
         gen = cases_for(it, cfg) if kind == "t" else default_cases(it)
         for case in gen:
@@ -681,6 +685,7 @@ def _work(arg):
             if not vs and len(samples) < 2 and len(case["tpl"]) >= 2:
                 samples.append({"template": emit(case["tpl"]), "ctx": case["ctx"], "phase": case["phase"]})
     st["impl_renders"] = RENDERS[0]
+    st["impl_translate_calls"] = RENDERS[1]
     return st, viols, outcomes, samples
 
 
@@ -716,7 +721,7 @@ def run(ctx):
     cases = sum(v for k, v in st.items() if k.endswith("_cases") and k != "nontrivial_cases")
     ctx.coverage.update(
         states=cases,
-        transitions=st["impl_renders"],
+        transitions=st["impl_translate_calls"],
         traces_validated_against_impl=cases,
         evaluations=cases,
         distinct_nontrivial=st["nontrivial_cases"],
@@ -729,8 +734,9 @@ def run(ctx):
         rule="every template = sequence of n segment kinds (plan: [kind level, n]; kinds = text, {{v}}, {{?v}}, defaults, "
         "filters, if/else, each with loop bodies, includes up to 3 levels/unknown) x every context (v over 11 values x w) "
         "non-strict, x value classes in strict mode, x every (payload, slot) in phase 2; states = distinct (template, "
-        "context, mode) cases rendered by the real Ribosome and compared with the reference; transitions = real "
-        "synthesize() calls that were compared (attribution re-runs of single segments are not counted); non-trivial = output differs from the template "
+        "context, mode) cases rendered by the real Ribosome and compared with the reference; transitions = "
+        "translate() executions of the real Ribosome caused by the compared renders (top level + include expansions, read "
+        "from its own counter; attribution re-runs of single segments are not counted); non-trivial = output differs from the template "
         "text (something was expanded) or strict mode",
         exhaustive=True,
     )
